@@ -3,8 +3,12 @@ from common import T_COMMON
 CFG = dict(
     gen=[dict(spec="transform.json", out="Transform.lean")],
     theorems=["unweld_spec", "unweld_idem", "removeUnreferenced_spec", "flip_spec", "flip_flip", "flip_rejects",
-              "toPointCloud_spec"],
-    streams=[dict(name="c03", n=dict(quick=400, thorough=12000))],
+              "toPointCloud_spec", "setAttr_spec", "modifyAttr_spec", "mapAttr_spec", "modifyAttr_rejects",
+              "translate_spec", "scaleAbout_spec", "scaleMesh_spec", "rotate_spec", "applyTRS_spec", "center_spec",
+              "normalize_spec", "laplacian_frame", "smoothNormals_frame", "flatNormals_frame"],
+    streams=[dict(name="c03", n=dict(quick=400, thorough=12000),
+                  # LaplacianSmooth sums the neighbours in Go map order: compared within a tolerance
+                  ulps={"c03.op.laplacian": (16, 1e-9)})],
     trusted=T_COMMON + [
         "hand-written pure models PolyVerif/Model/{Mesh,MeshOps}.lean of modeling/mesh.go and modeling/meshops/*.go; tied to the "
         "code on every run by bit-exact comparison of complete result meshes on generated inputs"],
